@@ -30,8 +30,8 @@ m) a read that planned with the old live list may still be running when the hand
    then FAIL the read, not answer it: ColumnLoader::read_column_for_zone may not turn a load error into an empty column (rows with NULL cells / half the COUNT are returned as a normal answer).
 Not decided: content equality, behaviour after a crash inside a run, a read that re-loads a retired label between invalidation and reclaim.
 """
-FLOOR = 15
-REQUIRED = ["C05.a", "C05.b1", "C05.b2", "C05.b3", "C05.c", "C05.d", "C05.e", "C05.f", "C05.g", "C05.h", "C05.i", "C05.j", "C05.k", "C05.l", "C05.m"]
+FLOOR = 16
+REQUIRED = ["C05.a", "C05.b1", "C05.b2", "C05.b3", "C05.c", "C05.d", "C05.e", "C05.f", "C05.g", "C05.h", "C05.i", "C05.j", "C05.k", "C05.l", "C05.m", "C05.n"]
 
 
 def run(ctx):
@@ -404,6 +404,38 @@ def run(ctx):
                             bad.append(("stale-output-id", "the output id of a MergePlan (%s) is allocated in an earlier loop iteration than the one that builds the plan" % sp(b, bb), None))
         return bad
     ctx.run("C05.k", "K7 PROV", "KWayCountPolicy::plan", "every merge plan writes into a freshly allocated output segment", k_)
+
+    def n_(inst):
+        """`Fresh` means fresh on disk, not only fresh in segments.idx: a directory that exists without being indexed (crash between
+        writing a segment and publishing it, or a retired segment not reclaimed yet) must not get its id handed out again, or the
+        compactor writes a new segment into the old directory. The allocator of the planner is therefore seeded from the index
+        labels AND from the directory listing."""
+        b = F.method("KWayCountPolicy", "CompactionPolicy", "plan")
+        al = one(b, r"RangeAllocator::from_existing_ids$")
+        names = set()
+        todo = [al.args[0]]
+        seen_bb = set()
+        locs = wide_all(b, al.args[0])
+        for c in b.calls:
+            if c.cleanup or not c.dest:
+                continue
+            if c.dest[0] in locs or (c.args and re.search(r"Extend>::extend$|Vec::push$|Vec::append$|extend_from_slice$", c.nname) and (b._origin_locals(c.args[0]) & locs)):
+                names.add(c.nname)
+                if re.search(r"Extend>::extend$|Vec::append$|extend_from_slice$", c.nname) and len(c.args) > 1:
+                    for l_ in wide_all(b, c.args[1]):
+                        for c2 in b.calls:
+                            if not c2.cleanup and c2.dest and c2.dest[0] == l_:
+                                names.add(c2.nname)
+        idx = any(n_.endswith("SegmentIndex::all_labels") for n_ in names)
+        disk = any(re.search(r"SegmentIdLoader::load$|fs::read_dir$", n_) for n_ in names)
+        inst.sites += [sp(b, al.bb), "allocator seeded from index labels: %s, from the directory listing: %s" % (idx, disk)]
+        bad = []
+        if not idx:
+            bad.append(("allocator-ignores-index", "the planner's id allocator is not seeded from the index labels", sp(b, al.bb)))
+        if not disk:
+            bad.append(("allocator-ignores-directories", "the planner's id allocator is seeded from segments.idx only: the id of a directory that is on disk but not indexed (crash leftover, retired segment) is handed out again and the compactor writes into it", sp(b, al.bb)))
+        return bad
+    ctx.run("C05.n", "K7 PROV", "KWayCountPolicy::plan / RangeAllocator::from_existing_ids", "output ids are fresh with respect to the directories on disk", n_)
 
     def l_(inst):
         b = F.fn("ZoneCursorLoader::load_all")
